@@ -43,6 +43,10 @@ pub struct Step {
     pub burst: usize,
     #[serde(default)]
     pub ms: u64,
+    /// fragmented messages: pause between two fragments (0 = all fragments in one write); longer
+    /// than a poll interval means the message arrives spread over several polls
+    #[serde(default)]
+    pub frag_gap_ms: u64,
 }
 
 #[derive(Serialize, Deserialize, Clone, Debug)]
@@ -247,20 +251,33 @@ fn run_client(cid: usize, sc: ClientScript, server: SocketAddr, out: Arc<Mutex<C
                     let payload = format!("{}c{}m{}-{}", tag, cid, n, "x".repeat(n % 7)).into_bytes();
                     n += 1;
                     let k = st.frags.clamp(0, 3);
-                    let mut bytes = Vec::new();
+                    let mut pieces: Vec<Vec<u8>> = Vec::new();
                     if k == 0 || payload.len() < 4 {
-                        bytes = frame_bytes(if st.binary { 2 } else { 1 }, &payload, true, n as u32);
+                        pieces.push(frame_bytes(if st.binary { 2 } else { 1 }, &payload, true, n as u32));
                     } else {
                         let cut = payload.len() / (k + 1);
                         for i in 0..=k {
                             let a = i * cut;
                             let b = if i == k { payload.len() } else { (i + 1) * cut };
-                            bytes.extend(frame_bytes(if i == 0 { if st.binary { 2 } else { 1 } } else { 0 }, &payload[a..b], i == k, (n * 8 + i) as u32));
+                            pieces.push(frame_bytes(if i == 0 { if st.binary { 2 } else { 1 } } else { 0 }, &payload[a..b], i == k, (n * 8 + i) as u32));
                         }
                     }
-                    let _g = wlock.lock().unwrap();
-                    let ok = s.write_all(&bytes).is_ok();
-                    drop(_g);
+                    let gap = st.frag_gap_ms.min(40);
+                    let mut ok = true;
+                    if gap == 0 {
+                        let bytes: Vec<u8> = pieces.concat();
+                        let _g = wlock.lock().unwrap();
+                        ok = s.write_all(&bytes).is_ok();
+                    } else {
+                        // one write per fragment, with a pause in between
+                        for (pi, piece) in pieces.iter().enumerate() {
+                            if pi > 0 {
+                                humsim::thread::sleep(Duration::from_millis(gap));
+                            }
+                            let _g = wlock.lock().unwrap();
+                            ok = ok && s.write_all(piece).is_ok();
+                        }
+                    }
                     if ok {
                         out.lock().unwrap().sent.push((payload, sim::decision_index()));
                     }
@@ -337,7 +354,7 @@ impl Prop for C12 {
         }
     }
     fn rule(&self) -> &'static str {
-        "One case = 1..8 reference clients each running a script over {connect at a time, send text/binary messages (possibly fragmented, bursts of several within one poll interval; plain, asking the handler for a unicast reply, asking for a broadcast), ping, sleep} and ending by Close frame, abrupt FIN, closing the socket outright (server writes to it then fail), going silent (partition, with heartbeat on) or staying connected; an external AsyncSender thread issuing unicasts and broadcasts (3..60 KB ones when a slow-reading client with a 600..4000-byte receive window is present) at scripted virtual times; handler pools of 1..8 threads; poll interval none / 1..10 ms; heartbeat off or (interval, timeout); linked and unlinked construction; then the shutdown signal. All under one seeded schedule (random / sticky / PCT / round-robin) of the poll loop, the pool, the front App and the clients. Distinct = distinct event-log shape (per client: connect / message count / disconnect, order class) plus configuration; non-trivial = at least two clients or one client with at least two messages, and at least one server-side send."
+        "One case = 1..8 reference clients each running a script over {connect at a time, send text/binary messages (possibly fragmented, with all fragments in one write or 1..40 ms apart so that a message is spread over several polls; bursts of several within one poll interval; plain, asking the handler for a unicast reply, asking for a broadcast), ping, sleep} and ending by Close frame, abrupt FIN, closing the socket outright (server writes to it then fail), going silent (partition, with heartbeat on) or staying connected; an external AsyncSender thread issuing unicasts and broadcasts (3..60 KB ones when a slow-reading client with a 600..4000-byte receive window is present) at scripted virtual times; handler pools of 1..8 threads; poll interval none / 1..10 ms; heartbeat off or (interval, timeout); linked and unlinked construction; then the shutdown signal. All under one seeded schedule (random / sticky / PCT / round-robin) of the poll loop, the pool, the front App and the clients. Distinct = distinct event-log shape (per client: connect / message count / disconnect, order class) plus configuration; non-trivial = at least two clients or one client with at least two messages, and at least one server-side send."
     }
     fn assumptions(&self) -> Vec<String> {
         vec![
@@ -350,7 +367,7 @@ impl Prop for C12 {
         ]
     }
     fn expected_counters(&self) -> Vec<&'static str> {
-        vec!["c12.clients", "c12.messages_sent", "c12.fragmented", "c12.bursts", "c12.unicast_replies", "c12.handler_broadcasts", "c12.external_sends", "c12.close_endings", "c12.fin_endings", "c12.drop_endings", "c12.silent_endings", "c12.close_near_timeout_endings", "c12.heartbeat_on", "c12.linked", "c12.unlinked", "c12.single_handler_thread", "c12.slow_reader", "c12.no_poll_interval", "net.silent_peer"]
+        vec!["c12.clients", "c12.messages_sent", "c12.fragmented", "c12.fragments_spread_over_polls", "c12.bursts", "c12.unicast_replies", "c12.handler_broadcasts", "c12.external_sends", "c12.close_endings", "c12.fin_endings", "c12.drop_endings", "c12.silent_endings", "c12.close_near_timeout_endings", "c12.heartbeat_on", "c12.linked", "c12.unlinked", "c12.single_handler_thread", "c12.slow_reader", "c12.no_poll_interval", "net.silent_peer"]
     }
     fn real_vs_stub(&self) -> (Vec<&'static str>, Vec<&'static str>) {
         (vec!["AsyncWebsocketApp::run, AsyncStream/AsyncSender, async_websocket_handler + handshake, WebsocketStream::recv_nonblocking/send/ping, ThreadPool, App"], vec!["threads, Mutex/mpsc, sleep, Instant, TCP, the streams HashMap's hasher (humsim)", "clients are harness reference RFC 6455 implementations"])
@@ -371,11 +388,11 @@ impl Prop for C12 {
             for _ in 0..nsteps {
                 let r = rng.below(10);
                 if r < 6 {
-                    steps.push(Step { op: "msg".into(), kind: ["plain", "plain", "unicast", "broadcast"][rng.usize_below(4)].into(), binary: rng.chance(1, 3), frags: if rng.chance(1, 3) { rng.range(1, 3) as usize } else { 0 }, burst: if rng.chance(1, 3) { rng.range(2, 4) as usize } else { 1 }, ms: 0 });
+                    steps.push(Step { op: "msg".into(), kind: ["plain", "plain", "unicast", "broadcast"][rng.usize_below(4)].into(), binary: rng.chance(1, 3), frags: if rng.chance(1, 3) { rng.range(1, 3) as usize } else { 0 }, burst: if rng.chance(1, 3) { rng.range(2, 4) as usize } else { 1 }, ms: 0, frag_gap_ms: 0 });
                 } else if r < 7 {
-                    steps.push(Step { op: "ping".into(), kind: String::new(), binary: false, frags: 0, burst: 0, ms: 0 });
+                    steps.push(Step { op: "ping".into(), kind: String::new(), binary: false, frags: 0, burst: 0, ms: 0, frag_gap_ms: 0 });
                 } else {
-                    steps.push(Step { op: "sleep".into(), kind: String::new(), binary: false, frags: 0, burst: 0, ms: [1u64, 5, 12, 40, 300][rng.usize_below(5)] });
+                    steps.push(Step { op: "sleep".into(), kind: String::new(), binary: false, frags: 0, burst: 0, ms: [1u64, 5, 12, 40, 300][rng.usize_below(5)], frag_gap_ms: 0 });
                 }
             }
             let ending = match rng.below(8) {
@@ -394,6 +411,18 @@ impl Prop for C12 {
         // blocked in a write to a slow reader would let other clients' heartbeats lapse, which is
         // Humphrey's design and not what this property judges)
         let mut rng2 = Rng::new(humsim::rng::mix(&[run_seed(seed, "C12", idx), 0xC12_0002]));
+        // fragmented messages: half of them arrive with a pause between the fragments (spread over
+        // several polls when the pause exceeds the poll interval)
+        for c in clients.iter_mut() {
+            for st in c.steps.iter_mut() {
+                // (only without a heartbeat: Humphrey reads the rest of a started message with
+                // blocking reads, so a pausing client stalls the poll loop, and the heartbeats of
+                // other clients may lapse meanwhile -- its design, not what this property judges)
+                if heartbeat.is_none() && st.op == "msg" && st.frags > 0 && rng2.chance(1, 2) {
+                    st.frag_gap_ms = [1u64, 4, 15, 25, 40][rng2.usize_below(5)];
+                }
+            }
+        }
         // half of the FIN endings become a full close of the socket (writes to it then fail)
         for c in clients.iter_mut() {
             if c.ending == "fin" && rng2.chance(1, 2) {
@@ -463,6 +492,13 @@ impl Prop for C12 {
                 scn.sim.strategy = "random".into();
             }
             rr.count("c12.no_poll_interval", 1);
+        }
+        if scn.heartbeat.is_some() {
+            for c in scn.clients.iter_mut() {
+                for st in c.steps.iter_mut() {
+                    st.frag_gap_ms = 0;
+                }
+            }
         }
         let slow_extra_ms = if slow { 1500 + scn.clients.iter().map(|c| c.read_pause_ms.min(1000)).max().unwrap_or(0) } else { 0 };
         let server: SocketAddr = "10.3.1.1:8090".parse().unwrap();
@@ -596,6 +632,9 @@ impl Prop for C12 {
             for s in &c.steps {
                 if s.op == "msg" {
                     rr.count("c12.messages_sent", s.burst.clamp(1, 4) as u64);
+                    if s.frags > 0 && s.frag_gap_ms > 0 {
+                        rr.count("c12.fragments_spread_over_polls", 1);
+                    }
                     if s.frags > 0 {
                         rr.count("c12.fragmented", 1);
                     }
